@@ -34,6 +34,7 @@ type heapSorts map[string]Sort
 
 // Exec is the verification of one top-level function.
 type Exec struct {
+	lastCbRets [][2]string // (reach, result) per return site of the callback run last by runCallback
 	P         *Program
 	vc        *VC
 	reg       *Registry
